@@ -279,11 +279,12 @@ Section Batch.
     assert (Lws : Z.of_nat (length ws) = wn) by (unfold ws; rewrite firstn_length; lia).
     pose proof Hcap0 as Hcp. pose proof (cfg_cap_lt_W c Hc) as HcW. fold cap in HcW.
     pose proof I as I0. destruct I. destruct bv_ord0 as (O1 & O2 & O3 & O4 & O5). unfold bnowrap in bv_g0.
-    assert (Ei : i = wrap i) by (symmetry; apply wrap_small; lia).
+    assert (Ei : wrap i = i) by (apply wrap_small; lia).
     set (st1 := mkB (b_head st) (b_tail st) (b_whead st) (b_rtail st) (ring_write c (b_slot st) i ws)
                     (b_gt st) (b_grt st) (b_gval st) (b_gwho st) (b_thr st)).
     assert (Hoth : forall j, (forall k, 0 <= k < wn -> j mod cap <> (i + k) mod cap) -> b_slot st1 (j mod cap) = b_slot st (j mod cap)).
-    { intros j Hj. unfold st1; cbn. rewrite Ei. apply (ring_write_other c Hc). intros k Hk. fold cap. apply Hj. lia. }
+    { intros j Hj. unfold st1; cbn. pose proof (ring_write_other c Hc (b_slot st) i ws (j mod cap)) as R. rewrite Ei in R. apply R.
+      intros k Hk. fold cap. apply Hj. lia. }
     assert (I1 : BInv st1).
     { constructor; try assumption.
       - repeat split; assumption.
@@ -300,7 +301,7 @@ Section Batch.
     apply (binv_goto st1 p (BPushWr one vs i wn i)); try exact I1; try exact Epc; try reflexivity.
     cbn [bpc_ok]. change (b_whead st1) with (b_whead st). change (b_tail st1) with (b_tail st). change (b_gval st1) with (b_gval st).
     repeat split; try lia; try (apply K5; assumption).
-    unfold st1; cbn. rewrite Ei. fold cap. unfold cap. apply (ring_write_at c Hc); fold cap; lia.
+    unfold st1; cbn. pose proof (ring_write_at c Hc (b_slot st) i ws k) as R. rewrite Ei in R. apply R; fold cap; lia.
   Qed.
 
   (* (C3) publication: write_head moves over the interval of its holder, which returns *)
